@@ -15,6 +15,14 @@ pub fn config_name() -> &'static str {
 
 /// Reads a grammar text the way pest does. Err = rejected (messages).
 pub fn read_grammar(text: &str) -> Result<(Vec<Rule>, Vec<OptimizedRule>), Vec<String>> {
+    // a panic of the front-end is C09's business; everybody else treats it as a rejection
+    match std::panic::catch_unwind(|| read_grammar_inner(text)) {
+        Ok(r) => r,
+        Err(p) => Err(vec![format!("front-end panicked: {}", vmon::pestrun::panic_message(&p))]),
+    }
+}
+
+fn read_grammar_inner(text: &str) -> Result<(Vec<Rule>, Vec<OptimizedRule>), Vec<String>> {
     let optimized = match pest_meta::parse_and_optimize(text) {
         Ok((_, o)) => o,
         Err(es) => return Err(es.iter().map(|e| e.variant.message().to_string()).collect()),
